@@ -193,9 +193,10 @@ PROPS['C01'] = {
     'rule': _FUT_RULE,
     'min_nontrivial': [200, 2000],
     'require_classes': ['future_mt:rounds_with_competing_resolvers', 'future_mt:winner_promise_destruction', 'future_mt:winner_drop', 'future_mt:winner_exception'],
-    'single_thread_scenarios': ('promise_history',),
+    'single_thread_scenarios': ('promise_history', 'promise_default_history'),
     'jobs': [
         J('mt_rel', 'c01.cpp', 'rel', [400000, 20000000], scenario='future_mt', threads=6),
+        J('pdef_asan', 'c01.cpp', 'asan', [60000, 2000000], scenario='promise_default_history', threads=1),
         J('mt_asan', 'c01.cpp', 'asan', [60000, 3000000], scenario='future_mt', threads=6),
         J('hist_asan', 'c01.cpp', 'asan', [80000, 4000000], scenario='promise_history', threads=1),
         J('mt_crel', 'c01.cpp', 'crel', [0, 10000000], scenario='future_mt', threads=6, tiers=(T,)),
